@@ -37,7 +37,7 @@ CONSTANTS Series,      \* set of strings
           MaxTombs,    \* tombstone intervals per written block
           MaxOuts,     \* Compact / WriteRange operations
           MaxOps,      \* walk length (simulation)
-          Features,    \* subset of {"range", "restage"}
+          Features,    \* subset of {"range", "restage", "fullrange"} ("fullrange": every written block covers [0, MaxT+1))
           EmitMode     \* "all" | "none"
 
 VARIABLES blocks,      \* sealed blocks on disk
@@ -100,6 +100,7 @@ Step(rec) == /\ nops' = nops + 1
 
 Begin(lo, hi) ==
   /\ cur = None /\ nwritten < MaxBlocks /\ lo < hi
+  /\ "fullrange" \in Features => (lo = 0 /\ hi = MaxT + 1)
   /\ cur' = [id |-> nextId, mint |-> lo, maxt |-> hi,
              data |-> [s \in Series |-> <<>>], tombs |-> [s \in Series |-> {}]]
   /\ nextId' = nextId + 1 /\ nwritten' = nwritten + 1
@@ -220,8 +221,21 @@ Class ==
                                                            /\ Cand(a, s, t) # Cand(b, s, t)
                                                            /\ {v[1] : v \in Cand(a, s, t)} # {v[1] : v \in Cand(b, s, t)}
         tomb == Cardinality({b \in P : \E s \in Series : b.tombs[s] # {}})
-        staged == \E b \in P : b.id > MaxBlocks \/ \E s \in Series : \E x \in Range(SamplesOf(b, s)) : Cardinality(x.c) > 1 IN
-    <<"Compact", Cardinality(P), ov, dup, mix, tomb, staged, st.gone, st.want.nseries,
+        staged == \E b \in P : b.id > MaxBlocks \/ \E s \in Series : \E x \in Range(SamplesOf(b, s)) : Cardinality(x.c) > 1
+        \* layout relation between a chunk of one input and a chunk of another input of the same series:
+        \* same first and last timestamp, same encoding, same number of samples (>= 3) -- "twins" by their
+        \* headers -- with different interior timestamps ("points") or the same timestamps (then the payloads
+        \* still differ, every value names its source block) ("values"). The compacting merger's
+        \* perfect-duplicate shortcut must compare payloads, not headers.
+        Ts(ch) == {x.t : x \in Range(ch)}
+        Enc(ch) == {v[1] : v \in UNION {x.c : x \in Range(ch)}}
+        TwinHdr(c1, c2) == /\ Len(c1) = Len(c2) /\ Len(c1) >= 3 /\ c1[1].t = c2[1].t /\ Last(c1).t = Last(c2).t
+                           /\ Enc(c1) = Enc(c2)
+        twin == IF \E a, b \in P, s \in Series : a # b /\ \E i \in 1..Len(a.data[s]), j \in 1..Len(b.data[s]) :
+                      TwinHdr(a.data[s][i], b.data[s][j]) /\ Ts(a.data[s][i]) # Ts(b.data[s][j]) THEN "points"
+                ELSE IF \E a, b \in P, s \in Series : a # b /\ \E i \in 1..Len(a.data[s]), j \in 1..Len(b.data[s]) :
+                      TwinHdr(a.data[s][i], b.data[s][j]) THEN "values" ELSE "no" IN
+    <<"Compact", Cardinality(P), ov, dup, mix, tomb, staged, st.gone, st.want.nseries, twin,
       Cardinality(UNION {{v[1] : v \in UNION {Cand(b, s, t) : s \in Series, t \in Times}} : b \in P}),
       \* a tombstone that cuts a chunk in the middle / removes a whole series
       \E b \in P, s \in Series : \E k \in 1..Len(b.data[s]) :
